@@ -79,7 +79,11 @@ def relfile(f: str, root: Path | str, cwd_: Path | str | None = None) -> str:
     """Project-relative POSIX spelling of a reported file path."""
     p = Path(f)
     if not p.is_absolute():
-        p = Path(cwd_ or root) / p
+        q = Path(cwd_ or root) / p
+        # file-placement names files by their project-relative path whatever the working directory
+        if cwd_ is not None and not os.path.lexists(q) and os.path.lexists(Path(root) / p):
+            q = Path(root) / p
+        p = q
     p = Path(os.path.normpath(str(p)))
     root = Path(os.path.normpath(str(root)))
     try:
